@@ -1983,9 +1983,33 @@ func funcValueName(v ssa.Value) string {
 			return cv.Comment
 		}
 	case *ssa.Extract:
+		if n := debugName(cv); n != "" {
+			return n
+		}
 		return "result" + fmt.Sprint(cv.Index)
 	}
+	if n := debugName(v); n != "" {
+		return n
+	}
 	return v.Name()
+}
+
+// debugName: the source variable that an SSA value is bound to (from its DebugRef referrers), if any.
+func debugName(v ssa.Value) string {
+	refs := v.Referrers()
+	if refs == nil {
+		return ""
+	}
+	for _, r := range *refs {
+		if d, ok := r.(*ssa.DebugRef); ok && !d.IsAddr {
+			if id, ok := d.Expr.(*ast.Ident); ok {
+				if _, isVar := d.Object().(*types.Var); isVar {
+					return id.Name
+				}
+			}
+		}
+	}
+	return ""
 }
 
 // modTerm picks the simplest encoding of Go's a % b that the path condition justifies:
